@@ -407,7 +407,11 @@ def run(ctx, R, tier):
     from ..report import Rules as _Rules
     from . import c08 as _c08
     R8 = _Rules("C08")
-    _c08.run(ctx, R8, tier)
+    try:
+        _c08.run(ctx, R8, tier)
+    except AnalysisError as _shared_x:
+        # the other property's own anchors are gone on this tree: its check reports that; what it produced before is still shared
+        R.note("obligations shared from C08 are incomplete on this tree: %s" % _shared_x)
     shared = [o for o in R8.obs if o.key == "C08-R4|get_metadata|unknown-object-raises"]
     if not shared:
         R.note("the C08-R4 get_metadata instance was not produced on this tree (C08 reports why); nothing shared")
